@@ -21,6 +21,7 @@ from simkit import arwriter
 ID = "C06"
 LEVEL = "exploration"
 TIERS = {"quick": {"runs": 100000, "wall": 120}, "thorough": {"runs": 1500000, "wall": 1500}}
+HASHSEED_RUNS = {"quick": 300, "thorough": 3000}    # S7: identical event logs under other hash seeds
 RULE = ("world = seeded ar archive (0..6 members, GNU or BSD short names incl. duplicates, "
         "sizes 0/odd/even, binary payloads with and without final newline, payloads that "
         "contain header-looking text), opened by 1..3 ArFile instances over one shared file "
@@ -119,6 +120,10 @@ def generate(seed, run, tier):
                         "mtime": rw.choice([0, 1342943816, 999999999999]),
                         "uid": rw.choice([0, 1000, 999999]), "gid": rw.choice([0, 50, 999999]),
                         "mode": rw.choice([0o100644, 0o100755, 0o644])})
+    if len(members) >= 2 and rs.random() < 0.12:
+        # two members with byte-identical content (equal but not the same)
+        a, b = rw.sample(range(len(members)), 2)
+        members[b]["data"] = members[a]["data"]
     narch = rs.choice([1, 1, 2, 2, 3])
     archives = [rs.choice(["fileobj", "fileobj", "filename"]) for _ in range(narch)]
     # is the listing taken before the clients start, or only at the end (lookups and
